@@ -398,8 +398,8 @@ def rule_mute(prog, rep):
     # next_token: on is_limit() == true, accept_errors = false before the push
     isl = [c for c in next_token.live_calls() if re.search(r"error::Error::is_limit$", c.name)]
     pushes = [c for c in next_token.live_calls() if re.search(r"vec::Vec::<T, A>::push$", c.name) and (arg_path_s(next_token, c, 0) or "").endswith(".errors")]
-    if len(isl) != 1 or len(pushes) != 1:
-        rep.fail("UNDECIDED rule=C04.MUTE next_token: expected one is_limit() test and one errors.push (found %d / %d)" % (len(isl), len(pushes)))
+    if len(isl) != 1 or not pushes:
+        rep.fail("UNDECIDED rule=C04.MUTE next_token: expected one is_limit() test and at least one errors.push (found %d / %d)" % (len(isl), len(pushes)))
     else:
         br = branch_on_call(next_token, isl[0])
         mute_blocks = [b for b in next_token.live_blocks() for s in next_token.stmts(b)
@@ -407,11 +407,11 @@ def rule_mute(prog, rep):
         if br is None:
             rep.fail("UNDECIDED rule=C04.MUTE next_token: is_limit() result not branched on")
         else:
-            passed, _ = must_pass(next_token, [br[0]], [pushes[0].block], mute_blocks)
-            if not passed or not next_token.dominates(isl[0].block, pushes[0].block):
-                rep.finding("C04.MUTE", next_token.name, "lexer-limit-mute", "a lexer limit error does not set accept_errors = false before being recorded", isl[0].loc())
+            bad = [p for p in pushes if not must_pass(next_token, [br[0]], [p.block], mute_blocks)[0] or not next_token.dominates(isl[0].block, p.block)]
+            if bad:
+                rep.finding("C04.MUTE", next_token.name, "lexer-limit-mute", "a lexer limit error does not set accept_errors = false before being recorded", bad[0].loc())
             else:
-                rep.instance("C04.MUTE", "next_token: lexer limit error mutes later errors before it is recorded")
+                rep.instance("C04.MUTE", "next_token: lexer limit error mutes later errors before it is recorded (%d errors.push site(s))" % len(pushes))
 
 
 def rule_prov(prog, rep):
